@@ -523,6 +523,7 @@ class ProgGen:
         """References valid on table `h`: through any earlier handle whose column id is still in scope,
         or by name via C."""
         t = self.rr.env[h]
+        self._scope_tbl = t
         if self.cfg.get("c_only"):
             # name based references only: they survive an inserted alias() (C08 repair runs)
             return [(cname(n), t.cols[i].fam) for n, i in t.vis]
@@ -641,7 +642,7 @@ class ProgGen:
                     yield from leaves(v)
 
         # a pooled expression may be reused only where all its leaves still have the family they had (REF does not type check)
-        cands = [e for e, f, sig in self.pool if f == fam and all(scfam.get(k) == ff or (k[0] == "col" and self._leaf_fam(k) == ff) for k, ff in sig.items())]
+        cands = [e for e, f, sig in self.pool if f == fam and all((scfam.get(k) or (self._leaf_fam(k) if k[0] == "col" else None)) == ff for k, ff in sig.items())]
         if cands and rng.random() < 0.25:
             self.features.add("shared_expr")
             return rng.choice(cands)
@@ -661,9 +662,15 @@ class ProgGen:
         return e
 
     def _leaf_fam(self, k):
+        """Family of the column a handle reference denotes *in the table the expression is generated for* (a union may
+        have widened it since the reference was taken)."""
         try:
             t = self.rr.env[k[1]]
-            return t.cols[t.name_to_id()[k[2]]].fam
+            cid = t.name_to_id()[k[2]]
+            cur = getattr(self, "_scope_tbl", None)
+            if cur is not None and cid in cur.cols:
+                return cur.cols[cid].fam
+            return t.cols[cid].fam
         except Exception:
             return None
 
